@@ -129,15 +129,10 @@ impl RibbitClient {
                     Ok(n) => {
                         buffer.extend_from_slice(&temp_buf[..n]);
 
-                        // For V2 responses, check for double newline terminator
-                        // For V1 MIME responses, we need to read until connection closes
-                        // or we detect the complete MIME structure
-                        if buffer.ends_with(b"\n\n") {
-                            // Check if this might be a V1 MIME response that's not complete
-                            if !is_v1_mime_response(&buffer) {
-                                break;
-                            }
-                        }
+                        // The server sends one response and closes the connection, for V1
+                        // and V2 alike: read until then. A blank line is not a terminator:
+                        // BPSV allows empty lines, and whether the bytes received so far
+                        // happen to end in one depends on how TCP split the response.
 
                         // Safety limit - V1 responses can be larger due to signatures
                         if buffer.len() > 50 * 1024 * 1024 {
@@ -319,6 +314,37 @@ mod tests {
         assert!(result.is_ok());
         let doc = result.expect("Operation should succeed");
         assert!(!doc.rows().is_empty());
+    }
+
+    #[tokio::test]
+    async fn test_response_split_after_blank_line() {
+        // A V2 response with an empty line, delivered in two segments, the first of which
+        // ends right after the empty line
+        let listener = TcpListener::bind("127.0.0.1:0")
+            .await
+            .expect("Operation should succeed");
+        let addr = listener.local_addr().expect("Operation should succeed");
+        let server_handle = tokio::spawn(async move {
+            if let Ok((mut stream, _)) = listener.accept().await {
+                let mut buffer = [0; 1024];
+                let _ = stream.read(&mut buffer).await;
+                let _ = stream.write_all(b"Region!STRING:0|BuildId!DEC:4\n\n").await;
+                let _ = stream.flush().await;
+                tokio::time::sleep(Duration::from_millis(100)).await;
+                let _ = stream.write_all(b"us|1\neu|2\n").await;
+                let _ = stream.shutdown().await;
+            }
+        });
+
+        let client =
+            RibbitClient::new(format!("tcp://{addr}")).expect("Operation should succeed");
+        let doc = client
+            .query("v2/products/wow/versions")
+            .await
+            .expect("Operation should succeed");
+        server_handle.abort();
+
+        assert_eq!(doc.rows().len(), 2);
     }
 
     #[tokio::test]
